@@ -1,4 +1,7 @@
 #include "vm.h"
+#include <cstring>
+#include <chrono>
+#include <sched.h>
 #include "opcodes/end_statement.h"
 
 #include <sched.h>
@@ -13,8 +16,20 @@ long long next_seq() { return g_seq.fetch_add(1) + 1; }
 
 // ---------------------------------------------------------------- logger
 
+// A long-running instruction on demand: while parking is enabled, a diag_log whose text contains VH_PARK
+// keeps the executing thread inside that instruction until the controller releases it.
+std::atomic<bool> g_park_enabled{ false };
+std::atomic<int> g_parked{ 0 };
+std::atomic<int> g_park_release{ 0 };
+
 void CapLogger::log(const LogMessageBase& message)
 {
+    if (g_park_enabled.load() && message.getErrorCode() == 60019 && message.formatMessage().find("VH_PARK") != std::string::npos)
+    {
+        int ticket = g_parked.fetch_add(1) + 1;
+        auto t0 = std::chrono::steady_clock::now();
+        while (g_park_enabled.load() && g_park_release.load() < ticket && std::chrono::steady_clock::now() - t0 < std::chrono::seconds(10)) sched_yield();
+    }
     LogEnt e;
     e.level = (int)message.getLevel();
     e.code = (long long)message.getErrorCode();
@@ -268,6 +283,12 @@ static void h_before(runtime& r, context& c, const instruction& ins)
 {
     auto m = find_mon(r);
     if (!m) return;
+    if (m->concurrent && r.is_exit_requested())
+    {
+        long long k = m->after_flag_cur.fetch_add(1) + 1;
+        long long prev = m->after_flag_max.load();
+        while (k > prev && !m->after_flag_max.compare_exchange_weak(prev, k)) {}
+    }
     if (m->trace_max && m->trace.size() < m->trace_max)
     {
         auto d = ins.diag_info();
@@ -343,7 +364,7 @@ static void h_action_leave(runtime& r, int action, int result)
     // only the actions that own the run flag may be judged: stop/abort-on-running return while the executor still runs
     if (action == (int)runtime::action::stop) return;
     if (result == (int)runtime::result::action_error) return;
-    if (action == (int)runtime::action::abort && m->concurrent) return;
+    if (m->concurrent) return;      // two threads leave actions; the boundary counters belong to single-threaded workloads
     m->boundary_checks++;
     if (r.__runtime_error()) m->boundary_flag_set++;
     if (!r.log_messages.empty()) m->boundary_pending++;
@@ -353,6 +374,17 @@ static void h_failpoint(runtime& r, const char* name)
     auto m = find_mon(r);
     if (!m) return;
     m->failpoints.fetch_add(1);
+    if (!strcmp(name, "acquired"))
+    {
+        int n = m->owners.fetch_add(1) + 1;
+        int prev = m->max_owners.load();
+        while (n > prev && !m->max_owners.compare_exchange_weak(prev, n)) {}
+        m->after_flag_cur.store(0);
+    }
+    else if (!strcmp(name, "before_release"))
+    {
+        m->owners.fetch_sub(1);
+    }
     if (!m->concurrent) return;
     // xorshift; decide how long to yield
     unsigned long long x = m->fp_rng.load();
